@@ -752,6 +752,91 @@ class find_pairs_contacts(_FindPairsBase):
                            2: "every-definite-base-to-base-contact-is-recorded"}
 
 
+# ---- PHASE 3, base-phosphate / base-ribose branch (C11: "each base-phosphate/base-ribose contact runs from a base donor atom to a
+# phosphate/ribose oxygen within 4.0 A ... never joins a residue with itself") and what `used_atoms` does
+@spec
+def bb_contact(S, GA, GN, coordinates, d, c, oxygens):
+    """row d is a base donor atom (a donor name of its base that is not also an acceptor name), row c an oxygen of `oxygens`, the
+    two atoms are within D_HB and the library's same-residue test fails on them"""
+    return (((0 <= d and d < c and c < len(coordinates)) or (0 <= c and c < d and d < len(coordinates)))
+            and sqd(coordinates[d], coordinates[c]) <= D_HB * D_HB
+            and is_don(S[GA[d]], GN[d]) and not is_acc(S[GA[d]], GN[d]) and GN[c] in oxygens
+            and not same_res_id(ratom(S, GA, GN, d), ratom(S, GA, GN, c)))
+
+
+_B_LEN = ("0 <= len(base_phosphate_pairs) and len(PD) == len(base_phosphate_pairs) and len(PC) == len(base_phosphate_pairs) "
+          "and 0 <= len(base_ribose_pairs) and len(RD) == len(base_ribose_pairs) and len(RC) == len(base_ribose_pairs)")
+_B_SOUND = lambda lst, D, C, ox: (
+    f"forall(lambda b: implies(0 <= b and b < len({lst}), bb_contact({_TBL}, coordinates, {D}[b], {C}[b], {ox}) "
+    f"and {lst}[b][0] == {_S}[GA[{D}[b]]] and {lst}[b][1] == {_S}[GA[{C}[b]]] "
+    f"and ratom({_TBL}, {D}[b]) in used_atoms and ratom({_TBL}, {C}[b]) in used_atoms), pats=['{D}[b]'])")
+_DISJ = lambda D1, C1, b, D2, C2, g: (f"ratom({_TBL}, {D1}[{b}]) != ratom({_TBL}, {D2}[{g}]) and ratom({_TBL}, {D1}[{b}]) != ratom({_TBL}, {C2}[{g}]) "
+                                      f"and ratom({_TBL}, {C1}[{b}]) != ratom({_TBL}, {D2}[{g}]) and ratom({_TBL}, {C1}[{b}]) != ratom({_TBL}, {C2}[{g}])")
+_B_ONCE_P = f"forall(lambda b, g: implies(0 <= b and b < g and g < len(base_phosphate_pairs), {_DISJ('PD', 'PC', 'b', 'PD', 'PC', 'g')}), pats=[['PD[b]', 'PD[g]']])"
+_B_ONCE_R = f"forall(lambda b, g: implies(0 <= b and b < g and g < len(base_ribose_pairs), {_DISJ('RD', 'RC', 'b', 'RD', 'RC', 'g')}), pats=[['RD[b]', 'RD[g]']])"
+_B_ONCE_X = (f"forall(lambda b, g: implies(0 <= b and b < len(base_phosphate_pairs) and 0 <= g and g < len(base_ribose_pairs), "
+             f"{_DISJ('PD', 'PC', 'b', 'RD', 'RC', 'g')}), pats=[['PD[b]', 'RD[g]']])")
+_B_USED = ("forall(lambda x: implies(x in used_atoms, (UK[x] == 0 and 0 <= UB[x] and UB[x] < len(base_phosphate_pairs) "
+           f"and (x == ratom({_TBL}, PD[UB[x]]) or x == ratom({_TBL}, PC[UB[x]]))) "
+           "or (UK[x] == 1 and 0 <= UB[x] and UB[x] < len(base_ribose_pairs) "
+           f"and (x == ratom({_TBL}, RD[UB[x]]) or x == ratom({_TBL}, RC[UB[x]])))), sorts={{'x': 'Atom'}})")
+_B_LAB = {0: "lengths", 1: "base-phosphate-contacts-run-from-a-base-donor-to-a-phosphate-oxygen-within-4A-of-another-residue",
+          2: "base-ribose-contacts-run-from-a-base-donor-to-a-ribose-oxygen-within-4A-of-another-residue",
+          3: "no-atom-in-two-base-phosphate-contacts", 4: "no-atom-in-two-base-ribose-contacts", 5: "no-atom-in-a-base-phosphate-and-a-base-ribose-contact",
+          6: "used-atoms-are-atoms-of-recorded-contacts"}
+_D_ROW, _C_ROW = "DROW", "CROW"
+
+
+class find_pairs_bph(_FindPairsBase):
+    """Ghost state: PD[b] / PC[b] = table rows of the donor / acceptor atom of base_phosphate_pairs[b]; RD / RC the same for
+    base_ribose_pairs; UK[x] / UB[x] = kind (0 BPh, 1 BR) and index of the recorded contact that put atom x into used_atoms."""
+    stop_before = "labels = []"
+    requires = [REQ_DISTINCT, REQ_IDS, REQ_COORDS, REQ_NORMAL]
+    raises = ANY_EXC
+    loops = {
+        0: {"index": "a", "labels": _T_LAB, "inv": [_T_LEN, _T_ROWS0, _T_MAPS, _T_ORDER, _T_DISTXYZ]},
+        1: {"index": "kk", "elems": "ORD", "labels": _T_LAB, "inv": [_T_LEN, _T_ROWS1, _T_MAPS, _T_ORDER, _T_DISTXYZ]},
+        2: {"index": "w", "iter": "EN", "labels": _B_LAB,
+            "inv": [_B_LEN, _B_SOUND("base_phosphate_pairs", "PD", "PC", "PHOSPHATE_OX"), _B_SOUND("base_ribose_pairs", "RD", "RC", "RIBOSE_OX"),
+                    _B_ONCE_P, _B_ONCE_R, _B_ONCE_X, _B_USED]},
+    }
+    ghost = list(_TABLE_GHOST) + [
+        {"when": "after", "at": "hydrogen_bonds = []", "label": "ghost-init2",
+         "do": ["let PD = empty('list[int]')", "let PC = empty('list[int]')", "let RD = empty('list[int]')", "let RC = empty('list[int]')",
+                "let UK = empty('dict[Atom,int]')", "let UB = empty('dict[Atom,int]')", "let DROW = 0", "let CROW = 0"]},
+        {"when": "after", "at": "atom_j = coordinates_atom_map", "label": "pair-of-step",
+         "do": [f"assert 0 <= i and i < j and j < len(coordinates) and sqd(coordinates[i], coordinates[j]) <= D_HB * D_HB",
+                f"assert {_ROW('i')} and {_ROW('j')}",
+                f"assert atom_i == ratom({_TBL}, i) and atom_j == ratom({_TBL}, j) and atom_i != atom_j "
+                f"and type_i == ite(is_acc({_S}[GA[i]], GN[i]), 'acceptor', 'donor') and type_j == ite(is_acc({_S}[GA[j]], GN[j]), 'acceptor', 'donor')"]},
+        {"when": "after", "at": "residue_j = coordinates_residue_map", "label": "residues-of-step",
+         "do": [f"assert residue_i == {_S}[GA[i]] and residue_j == {_S}[GA[j]]"]},
+        {"when": "after", "at": "donor_residue, acceptor_residue = (residue_i, residue_j)", "label": "donor-is-row-i", "do": ["let DROW = i", "let CROW = j"]},
+        {"when": "after", "at": "donor_residue, acceptor_residue = (residue_j, residue_i)", "label": "donor-is-row-j", "do": ["let DROW = j", "let CROW = i"]},
+        {"when": "after", "at": "base_phosphate_pairs.append(", "label": "a-recorded-base-phosphate-contact",
+         "do": [f"assert bb_contact({_TBL}, coordinates, {_D_ROW}, {_C_ROW}, PHOSPHATE_OX)",
+                "let UK = dstore(dstore(UK, atom_i, 0), atom_j, 0)", "let UB = dstore(dstore(UB, atom_i, len(PD)), atom_j, len(PD))",
+                f"let PD = snoc(PD, {_D_ROW})", f"let PC = snoc(PC, {_C_ROW})"]},
+        {"when": "after", "at": "base_ribose_pairs.append(", "label": "a-recorded-base-ribose-contact",
+         "do": [f"assert bb_contact({_TBL}, coordinates, {_D_ROW}, {_C_ROW}, RIBOSE_OX)",
+                "let UK = dstore(dstore(UK, atom_i, 1), atom_j, 1)", "let UB = dstore(dstore(UB, atom_i, len(RD)), atom_j, len(RD))",
+                f"let RD = snoc(RD, {_D_ROW})", f"let RC = snoc(RC, {_C_ROW})"]},
+    ]
+    stop_ensures = [
+        "len(PD) == len(base_phosphate_pairs) and len(PC) == len(base_phosphate_pairs) and "
+        f"forall(lambda b: implies(0 <= b and b < len(base_phosphate_pairs), bb_contact({_TBL}, coordinates, PD[b], PC[b], PHOSPHATE_OX) "
+        f"and base_phosphate_pairs[b][0] == {_S}[GA[PD[b]]] and base_phosphate_pairs[b][1] == {_S}[GA[PC[b]]] and GA[PD[b]] != GA[PC[b]]))",
+        "len(RD) == len(base_ribose_pairs) and len(RC) == len(base_ribose_pairs) and "
+        f"forall(lambda b: implies(0 <= b and b < len(base_ribose_pairs), bb_contact({_TBL}, coordinates, RD[b], RC[b], RIBOSE_OX) "
+        f"and base_ribose_pairs[b][0] == {_S}[GA[RD[b]]] and base_ribose_pairs[b][1] == {_S}[GA[RC[b]]] and GA[RD[b]] != GA[RC[b]]))",
+        _B_ONCE_P, _B_ONCE_R, _B_ONCE_X,
+    ]
+    stop_ensures_labels = {0: "base-phosphate-contacts-run-from-a-base-donor-to-a-phosphate-oxygen-within-4A-of-another-residue",
+                           1: "base-ribose-contacts-run-from-a-base-donor-to-a-ribose-oxygen-within-4A-of-another-residue",
+                           2: "no-atom-in-two-base-phosphate-contacts", 3: "no-atom-in-two-base-ribose-contacts",
+                           4: "no-atom-in-a-base-phosphate-and-a-base-ribose-contact"}
+
+
 CONTRACTS = {
     "Residue3D.find_atom": AC.find_atom_c,
     "Residue3D.__lt__": AC.res_lt_c,
@@ -762,6 +847,7 @@ CONTRACTS = {
     "find_pairs@greedy": find_pairs_greedy,
     "find_pairs@table": find_pairs_table,
     "find_pairs@contacts": find_pairs_contacts,
+    "find_pairs@bph": find_pairs_bph,
     "find_pairs@labels": find_pairs_labels,
     "find_pairs@labels_complete": find_pairs_labels_complete,
 }
